@@ -9,28 +9,36 @@ Record entry := { rev : N; ety : N; vid : N }.
 Definition entry_eqb (a b : entry) : bool :=
   ((rev a =? rev b) && (ety a =? ety b) && (vid a =? vid b))%N.
 
-Record state := { entries : list (N * entry); limit : N; metric : Z }.
-Definition init : state := {| entries := []; limit := 0; metric := 0 |}.
+(* [exps]: the expiration_height column of registry_entries, per key (written by both
+   the INSERT and the UPDATE of SetRegistryValue, an 8-byte little-endian blob: every
+   uint64 fits).  [tip]: the height of the store's processed chain tip
+   (global_settings.last_scanned_index).  Nothing in /repo reads either of them for the
+   registry: persist/sqlite/registry.go is the only code that names registry_entries, and it
+   has no DELETE and no WHERE on expiration_height. *)
+Record state := { entries : list (N * entry); exps : list (N * N); limit : N; metric : Z; tip : N }.
+Definition init : state := {| entries := []; exps := []; limit := 0; metric := 0; tip := 0 |}.
 
 Definition count (s : state) : N := N.of_nat (length (entries s)).
 
 Inductive op :=
 | SetLimit (n : N)
-  (* Put key e valid tie: [valid] = core's ValidateRegistryEntry accepted it;
+  (* Put key e exp valid tie: [exp] = the expirationHeight argument;
+     [valid] = core's ValidateRegistryEntry accepted it;
      [tie] = core's ValidateRegistryUpdate verdict, consulted only at equal revisions *)
-| Put (k : N) (e : entry) (valid tie : bool)
+| Put (k : N) (e : entry) (exp : N) (valid tie : bool)
 | Get (k : N)
 | Info
-  (* the store's processed chain tip moves to height h (global_settings.last_scanned_index):
-     entries carry an expiration height, but nothing in the registry reads the tip — no entry is
-     dropped, hidden or uncounted when its expiration height passes *)
-| Tip (h : N).
+  (* the store's processed chain tip moves to height h *)
+| Tip (h : N)
+  (* the expiration_height column of key k, read by the harness with its own SQL connection *)
+| Exp (k : N).
 
 Inductive obs :=
 | ODone
 | OPut (accepted : bool) (ret : option entry)   (* None = zero RegistryValue *)
 | OGet (v : option entry)
-| OInfo (cnt lim : N) (m : Z).
+| OInfo (cnt lim : N) (m : Z)
+| OExp (h : option N).
 
 (* rhp3.ValidateRegistryUpdate: revision order first, core's tie-break otherwise *)
 Definition supersedes (old new : entry) (tie : bool) : bool :=
@@ -38,24 +46,28 @@ Definition supersedes (old new : entry) (tie : bool) : bool :=
   else if (rev new <? rev old)%N then false
   else tie.
 
+(* SetRegistryValue once the manager decided to write: the row of k holds e and exp *)
+Definition write (s : state) (k : N) (e : entry) (exp : N) (dm : Z) : state :=
+  {| entries := aset k e (entries s); exps := aset k exp (exps s); limit := limit s;
+     metric := metric s + dm; tip := tip s |}.
+
 Definition step (s : state) (o : op) : state * obs :=
   match o with
-  | SetLimit n => ({| entries := entries s; limit := n; metric := metric s |}, ODone)
+  | SetLimit n => ({| entries := entries s; exps := exps s; limit := n; metric := metric s; tip := tip s |}, ODone)
   | Get k => (s, OGet (alookup k (entries s)))
   | Info => (s, OInfo (count s) (limit s) (metric s))
-  | Tip _ => (s, ODone)
-  | Put k e valid tie =>
+  | Tip h => ({| entries := entries s; exps := exps s; limit := limit s; metric := metric s; tip := h |}, ODone)
+  | Exp k => (s, OExp (alookup k (exps s)))
+  | Put k e exp valid tie =>
       if negb valid then (s, OPut false None)
       else match alookup k (entries s) with
            | None =>
                (* SetRegistryValue: insert path checks count >= limit *)
                if (limit s <=? count s)%N then (s, OPut false (Some e))
-               else ({| entries := aset k e (entries s); limit := limit s;
-                        metric := metric s + 1 |}, OPut true (Some e))
+               else (write s k e exp 1, OPut true (Some e))
            | Some old =>
                if supersedes old e tie
-               then ({| entries := aset k e (entries s); limit := limit s;
-                        metric := metric s |}, OPut true (Some e))
+               then (write s k e exp 0, OPut true (Some e))
                else (s, OPut false (Some old))
            end
   end.
@@ -66,6 +78,7 @@ Definition obs_eqb (a b : obs) : bool :=
   | OPut x r, OPut y q => Bool.eqb x y && option_eqb entry_eqb r q
   | OGet v, OGet w => option_eqb entry_eqb v w
   | OInfo c l m, OInfo c' l' m' => ((c =? c') && (l =? l'))%N && (m =? m')%Z
+  | OExp h, OExp h' => option_eqb N.eqb h h'
   | _, _ => false
   end.
 
